@@ -470,3 +470,104 @@ def run_c06(chk, n_types):
                         f"BaseConverter -> {rb!r:.160}",
                         {"ext": True, "type": describe(t), "payload": repr(p)[:400], "detailed": dv,
                          "converter": repr(rg)[:300], "baseconverter": repr(rb)[:300]})
+
+
+# ------------------------------------------------------------------------------------------------ C03: mixin enums
+
+F59_SIG = "str-mixin-enum-member-survives"
+
+
+def _mixin_enums():
+    """Enum classes with a data-type mix-in (the core model's enums are plain `Enum` classes)"""
+    import enum
+
+    class IE(enum.IntEnum):
+        A = 1
+        B = 7
+
+    class IF(enum.IntFlag):
+        R = 1
+        W = 2
+
+    class FE(float, enum.Enum):
+        H = 1.5
+        Z = 0.0
+
+    class SE(str, enum.Enum):
+        A = "a"
+        B = "bz"
+
+    class BE(bytes, enum.Enum):
+        X = b"x"
+
+    out = [IE, IF, FE, SE, BE]
+    if hasattr(enum, "StrEnum"):
+        class SN(enum.StrEnum):
+            A = "a"
+        out.append(SN)
+    return out
+
+
+def _enum_leftovers(o, acc):
+    """enum members surviving anywhere inside an unstructured object"""
+    import enum
+    if isinstance(o, enum.Enum):
+        acc.append(o)
+    elif isinstance(o, dict):
+        for k, v in o.items():
+            _enum_leftovers(k, acc)
+            _enum_leftovers(v, acc)
+    elif isinstance(o, (list, tuple, set, frozenset)):
+        for e in o:
+            _enum_leftovers(e, acc)
+    return acc
+
+
+def run_c03(chk):
+    """C03 on enums with a data-type mix-in (IntEnum, IntFlag, (float, Enum), (str, Enum), StrEnum, (bytes, Enum)),
+    implementation only: wherever a member sits -- declared type, Optional, Any, list element, dict key and value,
+    attrs field, run-time class -- the output holds its VALUE (exact builtin class) and no enum member.
+    Deterministic (no random choice)."""
+    import typing
+    import attrs
+    import cattrs
+    from cattrs import UnstructureStrategy
+    for E in _mixin_enums():
+        members = list(E)
+        if issubclass(E, __import__("enum").IntFlag):
+            members.append(members[0] | members[1])
+        Holder = attrs.make_class("H_" + E.__name__, {"m": attrs.field(type=E), "o": attrs.field(type=typing.Optional[E]),
+                                                      "a": attrs.field(type=typing.Any)})
+        for cname, cls in (("Converter", cattrs.Converter), ("BaseConverter", cattrs.BaseConverter)):
+            for sname, strat in (("dict", UnstructureStrategy.AS_DICT), ("tuple", UnstructureStrategy.AS_TUPLE)):
+                conv = cls(unstruct_strat=strat)
+                for m in members:
+                    val = m.value
+                    cases = [
+                        ("as-E", lambda: conv.unstructure(m, unstructure_as=E), val),
+                        ("runtime", lambda: conv.unstructure(m), val),
+                        ("Optional[E]", lambda: conv.unstructure(m, unstructure_as=typing.Optional[E]), val),
+                        ("Any", lambda: conv.unstructure(m, unstructure_as=typing.Any), val),
+                        ("list[E]", lambda: conv.unstructure([m], unstructure_as=typing.List[E]), [val]),
+                        ("list-runtime", lambda: conv.unstructure([m]), [val]),
+                        ("dict[E,E]", lambda: conv.unstructure({m: m}, unstructure_as=typing.Dict[E, E]), {val: val}),
+                        ("dict-runtime", lambda: conv.unstructure({m: m}), {val: val}),
+                        ("attrs-fields", lambda: conv.unstructure(Holder(m, m, m)),
+                         {"m": val, "o": val, "a": val} if sname == "dict" else (val, val, val)),
+                    ]
+                    for pos, f, want in cases:
+                        r = _try(f)
+                        key = f"ext:mixin-enum:{E.__name__}:{m!r}:{cname}/{sname}:{pos}"
+                        chk.count(key, sample=None)
+                        chk.note("ext-stream:mixin-enum:" + E.__mro__[1].__name__)
+                        ok = r[0] == "ok" and not _enum_leftovers(r[1], []) and same(r[1], want)
+                        if ok:
+                            continue
+                        left = _enum_leftovers(r[1], []) if r[0] == "ok" else []
+                        # F59: the surviving object is a member of an Enum class that also subclasses str or bytes
+                        f59 = bool(left) and all(isinstance(x, (str, bytes)) for x in left)
+                        chk.violation(
+                            f"C03 oracle (extended stream, implementation only): unstructure of {m!r} at position {pos} on "
+                            f"{cname}/{sname} gives {r[1]!r:.200}, expected {want!r}",
+                            {"ext": True, "probe": F59_SIG if f59 else "mixin-enum", "enum": E.__name__, "member": repr(m),
+                             "position": pos, "converter": cname + "/" + sname, "got": repr(r[1])[:300]})
